@@ -20,7 +20,7 @@ def parse(name):
         return res
     cur = None
     for ln in open(p):
-        m = re.match(r"== ([CEFGH]\d+-[A-Z])", ln)
+        m = re.match(r"== ([CEFGHI]\d+-[A-Z])", ln)
         if m:
             cur = m.group(1)
             res.setdefault(cur, {})
@@ -41,11 +41,13 @@ for k, v in parse("matrix_r6.txt").items():
     final[k] = v
 for k, v in parse("matrix_r7.txt").items():
     final[k] = v
-for name in ("matrix_fix.txt", "matrix_fix5.txt", "matrix_fix6.txt"):
+for k, v in parse("matrix_r8.txt").items():
+    final[k] = v
+for name in ("matrix_fix.txt", "matrix_fix5.txt", "matrix_fix6.txt", "matrix_fix8.txt"):
     for k, v in parse(name).items():
         final.setdefault(k, {}).update(v)
 first = {}
-for name in ("matrix3.txt", "matrix4.txt", "matrix_r4.txt", "matrix_r5.txt", "matrix_r6.txt", "matrix_r7.txt"):
+for name in ("matrix3.txt", "matrix4.txt", "matrix_r4.txt", "matrix_r5.txt", "matrix_r6.txt", "matrix_r7.txt", "matrix_r8.txt"):
     for k, v in parse(name).items():
         first[k] = v
 summ = json.load(open(os.path.join(V, "seeded", "summaries.json")))
@@ -61,9 +63,9 @@ for d in sorted(os.listdir(os.path.join(V, "seeded"))):
         m = re.search(r"PROPERTY:\s*(C\d+)", notes)
         prop = m.group(1) if m else "?"
         rnd = {"E": 4, "G": 6, "H": 7}[d[0]]
-    elif d.startswith("F"):
+    elif d[0] in "FI":
         prop = "C" + d[1:3]
-        rnd = 5
+        rnd = {"F": 5, "I": 8}[d[0]]
     else:
         prop = d.split("-")[0]
         rnd = {"A": 1, "B": 1, "C": 2, "D": 3}[d[-1]]
@@ -71,7 +73,7 @@ for d in sorted(os.listdir(os.path.join(V, "seeded"))):
     if d in summ:
         meta["breaks"] = summ[d]
         meta["needs_to_manifest"] = "see author_notes.md"
-    meta["author"] = ("fresh sub-agent given only the text of %s, the ideas already used for it and a scratch worktree" % prop) if rnd < 4 else \
+    meta["author"] = ("fresh sub-agent given only the text of %s, the ideas already used for it and a scratch worktree" % prop) if rnd < 4 or rnd in (5, 8) else \
         "fresh sub-agent given the text of the candidate properties, an area of the source to work in, the ideas already used and a scratch worktree"
     meta.setdefault("confirmed", {})
     meta["confirmed"].update({"worktree": "/tmp/mut/confirm at /repo HEAD 1078261 (removed afterwards)",
